@@ -18,6 +18,7 @@ type c20Ctl struct {
 	childRes  []*Resource
 	spec      Object
 	why       string
+	customize bool // the current spec has a customize hook (related Secrets)
 }
 
 // C20Scenario: hosted controllers follow their CompositeController / DecoratorController objects.
@@ -31,6 +32,8 @@ func C20Scenario() *Scenario {
 			mustCreate(w.Store, ResTarget, "ns1", NewTarget(ResTarget, "ns1", fmt.Sprintf("t%d", i), 1, map[string]string{"decorate": "yes"}, map[string]string{"decorate": "yes"}), "user")
 		}
 		mustCreate(w.Store, ResBareTarget, "ns1", NewThing(ResBareTarget, "ns1", "b0", 1, "c0"), "user")
+		populateRelated(w)
+		w.InlineUnsyncedHooks = true
 		opts := &BootOptions{}
 		opts.Proc.Workers = 1 + t.Pick(2, "workers")
 		StandardBoot(w, opts)
@@ -56,6 +59,8 @@ func C20Scenario() *Scenario {
 					cfg.ResyncSeconds = 10
 				}
 				cfg.Etag = variant == 8
+				cfg.Customize = t.Pick(3, "customize") == 2
+				c.customize = cfg.Customize
 				o := cfg.Object()
 				c.parentRes, c.childRes = ResThing, nil
 				for _, ch := range cfg.Children {
@@ -114,7 +119,9 @@ func C20Scenario() *Scenario {
 			// the program of this controller answers for every version; instances are told apart by URL
 			if c.kind == "composite" {
 				tp := &TemplateProgram{ParentKey: "parent", ChildrenKey: "children", Kinds: c.childRes}
-				progs[c.name] = &Program{Sync: tp.SyncResponse, Finalize: tp.FinalizeResponse}
+				progs[c.name] = &Program{Sync: tp.SyncResponse, Finalize: tp.FinalizeResponse, Customize: func(req Object) Object {
+					return Object{"relatedResources": []interface{}{Object{"apiVersion": "v1", "resource": "secrets", "names": []interface{}{"r0"}}}}
+				}}
 			} else {
 				dp := &DecorateProgram{Kinds: c.childRes, Tag: c.name}
 				progs[c.name] = &Program{Sync: dp.Sync, Finalize: dp.Finalize}
@@ -197,11 +204,33 @@ func C20Scenario() *Scenario {
 								EditObject(w, res, mstr(o, "namespace"), mstr(o, "name"), "user", func(o Object) { setPath(o, fmt.Sprint(w.step), "metadata", "annotations", "probe") })
 							}
 						}
+						// ... and the related object of controllers with a customize hook
+						EditObject(w, ResSecret, "ns1", "r0", "user", func(o Object) { setPath(o, fmt.Sprint(w.step), "data", "v") })
 					},
 					Check: func(w *World) *Violation {
 						where := fmt.Sprintf("after %q (ops: %v)", opName, opLog)
 						if len(w.Panics) > 0 {
 							return &Violation{Prop: "C20", Class: "worker-panic", Sig: sig, Detail: w.Panics[0]}
+						}
+						// customize calls on behalf of instances that are gone
+						for _, h := range w.Hooks {
+							if h.ParkStep <= probeStep || h.Kind != "customize" {
+								continue
+							}
+							v := 0
+							fmt.Sscanf(h.Ver, "v%d", &v)
+							c := ctls[h.Controller]
+							if c == nil || !(c.exists && c.startable) || v != c.ver {
+								s2 := copySig(sig)
+								s2["hook"] = "customize"
+								what := "no such controller"
+								if c != nil {
+									what = "the object now " + describeCtl(c)
+									s2["reason"] = describeCtl(c)
+								}
+								return &Violation{Prop: "C20", Class: "stale-instance-still-syncing", Sig: s2,
+									Detail: fmt.Sprintf("%s: the customize hook of %s v%d was called although %s", where, h.Controller, v, what)}
+							}
 						}
 						// which instances answered the probe
 						calls := map[string]map[int]int{} // controller -> ver -> hook calls during the probe
@@ -258,6 +287,9 @@ func C20Scenario() *Scenario {
 								need[c.parentRes] = true
 								for _, r := range c.childRes {
 									need[r] = true
+								}
+								if c.customize && len(w.Store.List(c.parentRes, "")) > 0 {
+									need[ResSecret] = true // subscribed to when the first parent is synced
 								}
 							}
 						}
